@@ -2,7 +2,7 @@
 
 Trusted table (num_dual part semantics): which derivative multi-set each part of a dual type holds,
 in terms of the seeds (seed 1 = first Derivative parameter, seed 2 = second)."""
-from cfg import Defs, strip_place, dominators
+from cfg import provenance, Defs, strip_place, dominators
 from facts import callee
 from report import RuleResult
 
@@ -157,6 +157,21 @@ def run(F):
                 inserts.append((bi, t))
             elif p.startswith("std::collections::HashMap") and name in ("get", "get_mut", "contains_key", "entry", "remove", "get_or_insert_with"):
                 gets.append((bi, t))
+        if not gets:
+            # the lookup (and the hit / miss statistics) may live in a private helper of Cache taking the key by value:
+            # `fn lookup(&mut self, key) -> Option<f64> { self.map.get(&key).copied() .. }`
+            for bi, t in b.calls():
+                cb = F.callee_body(t)
+                if cb is None or "state::cache::Cache::" not in cb.path or cb.path.split("::")[-1] in CACHE_FNS or cb.is_closure():
+                    continue
+                inner = [(bj, t2) for bj, t2 in cb.calls() if callee(t2)[0].startswith("std::collections::HashMap") and callee(t2)[2] == "get"]
+                if len(inner) != 1 or [1 for bj, t2 in cb.calls() if callee(t2)[2] in ("insert", "remove", "entry", "get_mut", "clear")]:
+                    continue
+                cdefs = Defs(cb)
+                kparams, _ = provenance(cb, cdefs, [inner[0][1]["args"][1]["place"]["l"]]) if inner[0][1]["args"][1].get("k") in ("copy", "move") else (set(), None)
+                kp = [x for x in kparams if x >= 2]
+                if len(kp) == 1 and kp[0] - 1 < len(t["args"]):
+                    gets.append((bi, {"args": [t["args"][0], t["args"][kp[0] - 1]], "span": t["span"]}))
         # inserts
         ret_parts = set()
         for bi, si, st in b.stmts():
@@ -268,9 +283,59 @@ def run(F):
             dc = derive_calls.get(dfn, [])
             cc = cache_calls.get(cfn, [])
             where = b.file_line()
-            ok = len(dc) == 1 and len(cc) == 1
             msg = ""
-            if ok:
+            in_closure = None
+            if not dc and len(cc) == 1:
+                # the dual state may be built lazily inside the computation handed to the cache function (only on a miss)
+                for a in cc[0][1]["args"]:
+                    if a["k"] not in ("copy", "move") or not b.pty(a["place"])["k"].startswith("closure"):
+                        continue
+                    cb = F.body(b.pty(a["place"])["k"].split("closure:", 1)[1])
+                    d = _single_def(defs, a["place"]["l"])
+                    while d and d[0] == "stmt" and d[4]["k"] == "use" and d[4]["op"]["k"] in ("copy", "move"):
+                        d = _single_def(defs, d[4]["op"]["place"]["l"])
+                    if cb is None or not (d and d[0] == "stmt" and d[4]["k"] == "agg"):
+                        continue
+                    caps = d[4]["ops"]
+                    inner = [(bj, t2) for bj, t2 in cb.calls() if callee(t2)[2] == dfn and "State" in callee(t2)[0]]
+                    if len(inner) == 1:
+                        cdefs = Defs(cb)
+                        mapped = []
+                        for x in inner[0][1]["args"][1:]:
+                            # closure argument -> captured upvar -> operand of the closure aggregate in the parent
+                            cur = x.get("place") if x.get("k") in ("copy", "move") else None
+                            idx = None
+                            for _ in range(6):
+                                if cur is None:
+                                    break
+                                fl = [p_ for p_ in cur["p"] if isinstance(p_, dict) and "f" in p_]
+                                if cur["l"] == 1 and fl:
+                                    idx = fl[0]["f"]
+                                    break
+                                dd = _single_def(cdefs, cur["l"])
+                                if dd and dd[0] == "stmt" and dd[4]["k"] == "use" and dd[4]["op"]["k"] in ("copy", "move"):
+                                    cur = dd[4]["op"]["place"]
+                                else:
+                                    break
+                            if idx is not None and idx < len(caps):
+                                o = caps[idx]
+                                # by-reference capture: `&v`
+                                if o.get("k") in ("copy", "move"):
+                                    dd = _single_def(defs, o["place"]["l"])
+                                    if dd and dd[0] == "stmt" and dd[4]["k"] == "ref":
+                                        o = {"k": "copy", "place": dd[4]["place"]}
+                                mapped.append(o)
+                        in_closure = (inner[0], mapped)
+            ok = (len(dc) == 1 or in_closure is not None) and len(cc) == 1
+            if ok and in_closure is not None:
+                where = cc[0][1]["span"]
+                va_d = variant_of_args(in_closure[1])
+                va_c = variant_of_args(cc[0][1]["args"][1:])
+                want = [(variant, i) for i in range(nf)]
+                if va_d != want or va_c != want:
+                    ok = False
+                    msg = "argument fields of %s%s / %s%s differ from the fields of PartialDerivative::%s in order %s" % (dfn, va_d, cfn, va_c, variant, want)
+            elif ok:
                 where = cc[0][1]["span"]
                 va_d = variant_of_args(dc[0][1]["args"][1:])
                 va_c = variant_of_args(cc[0][1]["args"][1:])
